@@ -1118,14 +1118,14 @@ void output_text(FILE *pfile)
             }
             else
             {
-               add_text(pc->GetStr(), false, pc->Is(CT_STRING));
+               add_text(pc->GetStr(), false, pc->Is(CT_STRING) || pc->Is(CT_STRING_MULTI));
             }
             // insert <here> the HTML code for the tracking
             DecodeTrackingData(pc);
          }
          else              // standard output
          {
-            add_text(pc->GetStr(), false, pc->Is(CT_STRING));
+            add_text(pc->GetStr(), false, pc->Is(CT_STRING) || pc->Is(CT_STRING_MULTI));
          }
 
          if (pc->Is(CT_PP_DEFINE))  // Issue #876
